@@ -328,8 +328,8 @@ def run_interleaved(spec):
     return {'nontrivial': moved and (spec['cross'] or bool(gold_sectors)), 'labels': labels}
 
 
-FAMILIES = [Family('cross-currency', case, run, quick=320, thorough=10000),
-            Family('interleaved-construction', interleaved_case, run_interleaved, quick=640, thorough=20000)]
+FAMILIES = [Family('cross-currency', case, run, quick=480, thorough=10000),
+            Family('interleaved-construction', interleaved_case, run_interleaved, quick=960, thorough=20000)]
 
 MANIFEST_INFO = {
     'level_text': 'Generated-program exploration of multi-currency models with non-unit, time-varying exchange rates; the '
